@@ -36,6 +36,9 @@ type NetRules struct {
 	// Mask[ep] lists explicit actions for the first datagrams emitted by ep
 	// (enumerated fault masks); entries beyond it fall back to the rates.
 	Mask map[string][]int
+	// CutIdx[ep]: every datagram ep emits with index >= this value is dropped (a link that dies in
+	// the middle of a flight: the receiver is left with a partially reassembled message)
+	CutIdx map[string]int `json:",omitempty"`
 }
 
 type heldDatagram struct {
@@ -363,6 +366,11 @@ func (n *SimNet) decide(c *SimPacketConn, idx int, size int) Dec {
 			return Dec{A: ActDrop}
 		}
 	}
+	if k, ok := r.CutIdx[c.name]; ok && idx >= k {
+		n.S.Fault("cut-drop")
+
+		return Dec{A: ActDrop}
+	}
 	if m, ok := r.Mask[c.name]; ok && idx < len(m) {
 		d := Dec{A: int64(m[idx] & 0xff)}
 		if d.A == ActHold || d.A == ActDup {
@@ -456,7 +464,7 @@ func (n *SimNet) send(c *SimPacketConn, idx int, data []byte, to net.Addr) {
 	defer n.releaseHeld(c.name, lat)
 	switch d.A {
 	case ActDrop:
-		if len(n.Rules.Partitions) == 0 {
+		if len(n.Rules.Partitions) == 0 && n.Rules.CutIdx == nil {
 			n.S.Fault("drop")
 		}
 
